@@ -5,7 +5,7 @@ usage: tools_matrix.py [ids...]   (default: all)"""
 import json, os, re, subprocess, sys, tempfile, shutil, glob
 ENV = dict(os.environ, GOFLAGS="-mod=mod", GOPROXY="off", GOSUMDB="off", GOTOOLCHAIN="local")
 # which checks to try for a mutant besides its own property
-ALSO = {"C03-r3m3": ["C11", "C02"], "C14-r3m1": ["C02"], "C05-r3m1": ["C14"], "C06-r2m3": ["C15"], "C14-r2m3": ["C05"], "C04-m3": ["C01"], "C12-m3": ["C01", "C03"], "C16-m1": ["C04"], "C06-m1": ["C05"], "C15-m3": ["C15", "C18"], "C10-m3": ["C11"], "C01-m1": ["C16", "C03"]}
+ALSO = {"C06-r4m1": ["C15"], "C06-r4m2": ["C12"], "C05-r4m2": ["C14"], "C14-r4m2": ["C04", "C09"], "C03-r3m3": ["C11", "C02"], "C14-r3m1": ["C02"], "C05-r3m1": ["C14"], "C06-r2m3": ["C15"], "C14-r2m3": ["C05"], "C04-m3": ["C01"], "C12-m3": ["C01", "C03"], "C16-m1": ["C04"], "C06-m1": ["C05"], "C15-m3": ["C15", "C18"], "C10-m3": ["C11"], "C01-m1": ["C16", "C03"]}
 def sh(cmd, cwd=None, env=ENV, timeout=2400):
     try:
         p = subprocess.run(cmd, shell=True, cwd=cwd, env=env, stdout=subprocess.PIPE, stderr=subprocess.STDOUT, timeout=timeout, text=True, errors="replace")
